@@ -145,6 +145,7 @@ func init() {
 		Rule: "a table (fixed shapes + random; optionally with user properties on the table, every column incl. column 0, rows and cells, and a pre-existing error) is rendered by a sequence of renders over 9 slots " +
 			"(csv, html with two different Id/Class/Caption/row-class settings from ONE reused HTMLTable, json, markdown, text in 4 decorations), each through the slot's reused wrapper, a fresh Wrap or a package-level/auto entry point; " +
 			"further slots: a hand-written decoration never passed through Populate, and four style strings that abbreviate several registered names (12 renders each through every route); runs of adjacent separators; each slot's own long-lived wrapper, auto applied around another slot's long-lived wrapper, a row shared with a second table; " +
+			"round 6: tables of items of every kind (all 32 method sets of the mutable objects) whose items are changed in place - text, Go-syntax text, error text, declared sizes - before and between renders, with and without Update of the cell, in header and body cells (all 10x10 slot pairs exhaustively, random histories otherwise); every render is compared with the same build-and-change history replayed without renders on a fresh table; CSV after a change without Update is judged against the view read before the change; " +
 			"all sequences of length <= 2 over the slots on two tables exhaustively, random sequences of length <= 12 otherwise; observed: every output, and a serialised snapshot (counts, every row/cell text, emptiness, location, size, CellAt, user properties of every owner, Column(n) nil-ness for -1..n+1, error list identity) before and after; " +
 			"non-trivial when at least two renders of some slot happen and the table has a column",
 		Exhaustive: "render sequences of length <= 2 over 9 slots on 2 fixed tables",
